@@ -11,6 +11,7 @@ import Driver.RateLimitEng
 import Driver.ValidateEng
 import Driver.CodecEng
 import Driver.RpcEng
+import Driver.PeriodicEng
 
 open Driver
 
@@ -38,5 +39,6 @@ def main (args : List String) : IO UInt32 := do
   | ["ratelimit"] => loop stdin stdout RateLimitEng.step none; return 0
   | ["validate"] => loop stdin stdout ValidateEng.step (); return 0
   | ["rpc"] => loop stdin stdout RpcEng.step {}; return 0
+  | ["periodic"] => loop stdin stdout PeriodicEng.step none; return 0
   | ["codec"] => loop stdin stdout (fun (_ : Unit) l => ((), CodecEng.step l)) (); return 0
   | _ => IO.eprintln "usage: kyro_driver <engine>"; return 2
